@@ -591,7 +591,17 @@ def wave7_rules(ctx):
         f = ca[0]
         want = {"data": "data:", "marks": "mark:"}
         bad, n_ = [], 0
-        for lp in sir.walk(f.body):
+        reach_nodes = list(sir.walk_reach(tc, f))
+        # table-driven form: `for (prefix, attrs) in [("data:", &common.data), ("mark:", &common.marks)]`
+        for t_ in reach_nodes:
+            if t_.get("k") == "tuple" and len(t_["elems"]) == 2 and t_["elems"][0].get("k") == "lit" and t_["elems"][0].get("t") == "str" and re.fullmatch(r"\w+:", t_["elems"][0]["v"]):
+                src = sir.strip_ref(t_["elems"][1])
+                fld = src["name"] if src.get("k") == "field" else None
+                if fld in want:
+                    n_ += 1
+                    if t_["elems"][0]["v"] != want[fld]:
+                        bad.append("%s items are listed as `%s..`" % (fld, t_["elems"][0]["v"]))
+        for lp in reach_nodes:
             if lp.get("k") != "for":
                 continue
             src = sir.strip_ref(lp["e"])
@@ -606,7 +616,7 @@ def wave7_rules(ctx):
                     n_ += 1
                     if fc[0][1] != want[fld]:
                         bad.append("%s items are listed as `%s..`" % (fld, fc[0][1]))
-        obs.append(ob("C12.names/collection-prefix", not bad and n_ >= 2, ctx.where(f), "data / mark attributes are listed under their own prefix (%d sites)" % n_ if not bad else "; ".join(bad),
+        obs.append(ob("C12.names/collection-prefix", (not bad) if (bad or n_ >= 2) else None, ctx.where(f), "data / mark attributes are listed under their own prefix (%d sites)" % n_ if not bad else "; ".join(bad),
                       witness=None if not bad else "in dev mode a `mark:x` of a <slot> is reported to the runtime as `data:x`"))
     return obs
 
